@@ -783,6 +783,7 @@ type caseRun struct {
 	aborted bool
 	sent    int
 	gotResp int
+	resps   []string
 	steps   int
 }
 
@@ -995,7 +996,13 @@ func (cr *caseRun) exec(line string) bool {
 		if rg.tracerLen() == 0 {
 			q = 1
 		}
-		got := fmt.Sprintf("Q%d P0", q)
+		// the model also prints the REFERENCE answers (join over each request's derivation tree, computed
+		// from its ghost log) once every request is determined; the real responses must equal them
+		ref := "F-"
+		if cr.sent > 0 && cr.gotResp == cr.sent && sm.pending == 0 {
+			ref = "F" + strings.Join(cr.resps, ",")
+		}
+		got := fmt.Sprintf("Q%d P0 %s M1", q, ref)
 		cr.record(line, got)
 		if sm.idle() && sm.pending == 0 && q != 1 {
 			cr.fail("tracer-not-empty", "every request was answered and no action is running, but the nodes' tracers still hold entries")
@@ -1010,10 +1017,12 @@ func (cr *caseRun) exec(line string) bool {
 	cr.steps++
 	want := sm.obs()
 	got, ok := rg.collect(len(sm.entries), len(sm.arrivals), len(sm.resps), len(sm.internal), grace)
-	cr.record(line, external(got))
+	// S1: the model's self-check that every response so far equals the reference answer of its request
+	cr.record(line, external(got)+" S1")
 	for _, t := range strings.Fields(got) {
 		if strings.HasPrefix(t, "R") {
 			cr.gotResp++
+			cr.resps = append(cr.resps, t[1:])
 		}
 	}
 	if got != want {
